@@ -42,6 +42,12 @@ func RunHarnessK(prog *ssa.Program, fn *ssa.Function, x *Explorer, params map[st
 		it := newInterpreter(prog, x)
 		end, msg := runPath(it, fn)
 		x.endPath()
+		if end == EndSplit {
+			if !x.backtrack() {
+				break
+			}
+			continue
+		}
 		x.Stats.Paths++
 		if x.pos > x.Stats.MaxDepth {
 			x.Stats.MaxDepth = x.pos
